@@ -35,6 +35,9 @@ structure LogSite where
   line : Nat
   level : Nat
   args : List String
+  /-- provenance class per formatted argument: 0 constant, 1 identifier, 2 enum name, 3 time,
+  4 exception object, 5 configuration value, 10 tainted (value / encoding / repr / credential), 11 unknown -/
+  argCodes : List Nat
   deriving Repr, DecidableEq, Inhabited
 
 end Kmip
